@@ -190,15 +190,36 @@ def run(run):
     # ---------------- P1 localise -> lookup -> re-offset
     lookups = [p for p in prog.bodies if re.search(r"circle_map::endorse_\w+_span$", p)]
     run.floor("C06.P1", "catalogue_lookups", len(lookups), 4)
+    is_loc = lambda z: z[0] == "call" and z[1].endswith("span::Span::localize")
+    POSITIONAL = re.compile(r"span::Span::(bounds|cell_bounds|top_left|localize_point|is_bounded|hit_cell|extract)$|cell::Cell::(is_bounded|snap|localize)")
     for p in sorted(lookups):
-        bodies = [p] + prog.closures_of(p) + [c2 for c in prog.closures_of(p) for c2 in prog.closures_of(c)]
+        bodies = sorted(set([p] + prog.closures_of(p)))
         subset = None
         for q in bodies:
             ex = Expr(prog, q)
             for bid, t in prog.calls(q):
-                if Program.callee_name(t).endswith("circle_map::is_subset_of"):
+                n = Program.callee_name(t)
+                if n.endswith("circle_map::is_subset_of"):
                     a = ex.operand(t["args"][1])
-                    subset = mentions(a, lambda z: z[0] == "call" and z[1].endswith("span::Span::localize"))
+                    subset = mentions(a, is_loc)
+                    sa = strip(a)
+                    if not subset and sa[0] == "param" and sa[1] == 1 and "{closure" in q:
+                        # a captured value: look at what the creating body captured (hoisting localize() is harmless)
+                        idx = [f for f in sa[2] if f.isdigit()]
+                        parent = q.rsplit("::{closure", 1)[0]
+                        if idx and parent in prog.bodies:
+                            pex = Expr(prog, parent)
+                            for blk in prog.bodies[parent]["blocks"]:
+                                for st in blk["stmts"]:
+                                    rv = st.get("rv") or {}
+                                    if rv.get("k") == "agg" and rv.get("closure") == q and int(idx[0]) < len(rv["ops"]):
+                                        subset = mentions(pex.operand(rv["ops"][int(idx[0])]), is_loc)
+                # the absolute position of the search span must play no role in the lookup
+                if POSITIONAL.search(n) and t["args"]:
+                    recv = ex.operand(t["args"][0])
+                    if not mentions(recv, is_loc):
+                        run.bad("C06.P1", "lookup-uses-absolute-position/%s" % short(p), where(t),
+                                "%s consults %s of the un-localised search span: whether a drawing matches the catalogue would depend on where it sits on the page" % (short(p), short(n)))
         if subset:
             run.ok("C06.P1", "%s compares the localised search span with the catalogue" % short(p), where(prog.bodies[p]))
         else:
